@@ -232,6 +232,19 @@ EXTRA = _RTR + [
      r'TextEscape::Attr => \{\s*match ch \{([\s\S]*?)_ => None', lambda m: _escapes(m, {'<': '&lt;', '>': '&gt;', '"': '&quot;', "'": '&apos;', '&': '&amp;'}), ['C09', 'C11']),
     ('xmlPcdataEscapes', 'src/xml/encode.rs',
      r'TextEscape::Pcdata => \{\s*match ch \{([\s\S]*?)_ => None', lambda m: _escapes(m, {'<': '&lt;', '&': '&amp;'}), ['C09', 'C11']),
+    # ---- C05
+    ('roaBuilderCapturesContent', 'src/repository/roa.rs',
+     r'pub fn to_addresses\(&self\) -> RoaIpAddresses \{([\s\S]*?)\n    \}',
+     lambda m: bool(re.search(r'encode::slice\(self\.addrs\.as_slice\(\)', m.group(1))) or _raise('ROA builder captures the SEQUENCE header'), ['C05']),
+    ('roaEncodeWrapsCapture', 'src/repository/roa.rs',
+     r'fn encode_ref_family\([\s\S]*?(OctetString::encode_slice\(family\),\s*encode::sequence\(&self\.0\))', lambda m: True, ['C05']),
+    ('aspaBuilderCapturesContent', 'src/repository/aspa.rs',
+     r'fn into_attestation\(self\) -> AsProviderAttestation \{([\s\S]*?)let provider_as_set = ProviderAsSet',
+     lambda m: (not re.search(r'encode::sequence\(', m.group(1))) or _raise('ASPA builder captures the SEQUENCE header'), ['C05']),
+    ('aspaEncodeWrapsCapture', 'src/repository/aspa.rs',
+     r'(self\.customer_as\.encode\(\),\s*encode::sequence\(&self\.provider_as_set\.captured\))', lambda m: True, ['C05']),
+    ('mftEncodeShape', 'src/repository/manifest.rs',
+     r'(self\.manifest_number\.encode\(\),\s*self\.this_update\.encode_generalized_time\(\),\s*self\.next_update\.encode_generalized_time\(\),\s*self\.file_hash_alg\.encode_oid\(\),\s*encode::sequence\(\s*&self\.file_list\s*\))', lambda m: True, ['C05']),
     # ---- C14
     ('mftExtLen', 'src/repository/manifest.rs', r'fn validate_file_name\(name: &\[u8\]\)[\s\S]*?if n\.len\(\) != (\d+) \|\| !n\.iter\(\)\.all\(\|c\| c\.is_ascii_alphabetic\(\)\)', 'nat', ['C14']),
     ('mftNameCheckedBothSites', 'src/repository/manifest.rs',
